@@ -52,6 +52,7 @@ type AsrtSpec struct {
 	NotBefore    *int64     `json:"nb_ms"`
 	NotOnOrAfter *int64     `json:"noa_ms"`
 	NOAText      string     `json:"noa_text,omitempty"` // non-empty: Conditions/@NotOnOrAfter is written as exactly this text (e.g. the year-1 instant)
+	NBText       string     `json:"nb_text,omitempty"`  // non-empty: Conditions/@NotBefore is written as exactly this text
 	Audiences    []string   `json:"audiences"`          // one AudienceRestriction each; nil: none
 	Attrs        []AttrSpec `json:"attrs,omitempty"`
 	SessionIndex string     `json:"session_index,omitempty"`
@@ -268,6 +269,11 @@ func buildAssertionEl(a *AsrtSpec, t0 time.Time, form int, method string) *etree
 	}
 	if a.IssueText != "" {
 		el.CreateAttr("IssueInstant", a.IssueText)
+	}
+	if a.NBText != "" {
+		if c := el.FindElement("./Conditions"); c != nil {
+			c.CreateAttr("NotBefore", a.NBText)
+		}
 	}
 	if a.Pretty {
 		el.IndentWithSettings(&etree.IndentSettings{Spaces: 2})
